@@ -16,8 +16,10 @@
 (* remove / items) and the total part of the prelude: list methods first,   *)
 (* last, is_empty, is_non_empty, contains, concat, index_of, enumerate,     *)
 (* map, filter; option methods is_some, is_none, or_value; the functions    *)
-(* range, max, min, not, sort_nums.  The prelude implements most of these   *)
-(* in Garden itself; here they are stated by their meaning.                 *)
+(* range, max, min, not, sort_nums; string methods contains, starts_with,   *)
+(* ends_with, index_of, substring, trim*, strip_*, split, chars, join.  The *)
+(* prelude implements most of these in Garden itself; here they are stated  *)
+(* by their meaning.                                                        *)
 (*                                                                          *)
 (* Clauses tagged PINNED encode observable choices of the implementation    *)
 (* that the language documentation does not spell out (DESIGN.md §5.7).     *)
@@ -222,6 +224,29 @@ FilterLoop(prog, f, xs, i, line, sacc) ==
        ELSE IF ~IsBool(r.v) THEN Err("TypeError", line, r.s)
        ELSE FilterLoop(prog, f, xs, i + 1, line, <<r.s, IF IsTrue(r.v) THEN Append(sacc[2], xs[i]) ELSE sacc[2]>>)
 
+(* String methods of the prelude on TLA+ strings (ASCII; indexes count characters).  The definitions follow  *)
+(* Prelude.tla (property C32), which states them over character sequences; here they are restated with     *)
+(* SubSeq / Len on strings so that whole programs can use them.                                              *)
+SSub(s, from, to) == SubSeq(s, from + 1, to)          \* characters from..to-1, 0-based
+SStartsWith(s, p) == Len(p) <= Len(s) /\ SSub(s, 0, Len(p)) = p
+SEndsWith(s, p) == Len(p) <= Len(s) /\ SSub(s, Len(s) - Len(p), Len(s)) = p
+SIndexOf(s, n) ==      \* least index at which n occurs in s, -1 if none
+  LET C == {i \in 0..(Len(s) - Len(n)) : SSub(s, i, i + Len(n)) = n} IN
+  IF C = {} THEN -1 ELSE CHOOSE i \in C : \A j \in C : i <= j
+SMin(a, b) == IF a <= b THEN a ELSE b
+RECURSIVE STrimLeft(_)
+STrimLeft(s) == IF Len(s) > 0 /\ SSub(s, 0, 1) = " " THEN STrimLeft(SSub(s, 1, Len(s))) ELSE s
+RECURSIVE STrimRight(_)
+STrimRight(s) == IF Len(s) > 0 /\ SSub(s, Len(s) - 1, Len(s)) = " " THEN STrimRight(SSub(s, 0, Len(s) - 1)) ELSE s
+RECURSIVE SPieces(_, _)
+SPieces(s, n) ==       \* the pieces between occurrences of n; for the empty needle, the characters
+  IF Len(n) = 0 THEN [i \in 1..Len(s) |-> StrV(SSub(s, i - 1, i))]
+  ELSE LET i == SIndexOf(s, n) IN
+       IF i = -1 THEN <<StrV(s)>> ELSE <<StrV(SSub(s, 0, i))>> \o SPieces(SSub(s, i + Len(n), Len(s)), n)
+RECURSIVE SJoin(_, _, _)
+SJoin(items, sep, i) ==
+  IF i > Len(items) THEN "" ELSE items[i].v \o (IF i < Len(items) THEN sep \o SJoin(items, sep, i + 1) ELSE "")
+
 IsOpt(v) == v.k = "Enum" /\ v.n \in {"Some", "None"}
 IsFun(v) == v.k \in {"Clo", "Fun"}
 FirstIdx(xs, x) == LET S == {i \in 1..Len(xs) : ValEq(xs[i], x)} IN
@@ -249,6 +274,28 @@ MethodCall(prog, e, recv, args, s) ==
          Ok(ListV([i \in 1..Len(recv.v) |-> TupV(<<IntV(i - 1), recv.v[i]>>)]), s)
     [] m = "map" /\ n = 1 /\ IsList(recv) /\ IsFun(args[1]) -> MapLoop(prog, args[1], recv.v, 1, e.line, <<s, <<>> >>)
     [] m = "filter" /\ n = 1 /\ IsList(recv) /\ IsFun(args[1]) -> FilterLoop(prog, args[1], recv.v, 1, e.line, <<s, <<>> >>)
+    \* strings
+    [] m = "contains" /\ n = 1 /\ IsStr(recv) /\ IsStr(args[1]) -> Ok(BoolV(SIndexOf(recv.v, args[1].v) # -1), s)
+    [] m = "starts_with" /\ n = 1 /\ IsStr(recv) /\ IsStr(args[1]) -> Ok(BoolV(SStartsWith(recv.v, args[1].v)), s)
+    [] m = "ends_with" /\ n = 1 /\ IsStr(recv) /\ IsStr(args[1]) -> Ok(BoolV(SEndsWith(recv.v, args[1].v)), s)
+    [] m = "index_of" /\ n = 1 /\ IsStr(recv) /\ IsStr(args[1]) ->
+         Ok(IF SIndexOf(recv.v, args[1].v) = -1 THEN NoneV ELSE SomeV(IntV(SIndexOf(recv.v, args[1].v))), s)
+    [] m = "substring" /\ n = 2 /\ IsStr(recv) /\ IsInt(args[1]) /\ IsInt(args[2]) ->
+         \* the end is clamped; a negative start or start > end is an error
+         IF args[1].v < 0 \/ args[1].v > args[2].v THEN Err("MethodError", e.line, s)
+         ELSE Ok(StrV(SSub(recv.v, SMin(args[1].v, Len(recv.v)), SMin(args[2].v, Len(recv.v)))), s)
+    [] m = "trim" /\ n = 0 /\ IsStr(recv) -> Ok(StrV(STrimRight(STrimLeft(recv.v))), s)
+    [] m = "trim_left" /\ n = 0 /\ IsStr(recv) -> Ok(StrV(STrimLeft(recv.v)), s)
+    [] m = "trim_right" /\ n = 0 /\ IsStr(recv) -> Ok(StrV(STrimRight(recv.v)), s)
+    [] m = "strip_prefix" /\ n = 1 /\ IsStr(recv) /\ IsStr(args[1]) ->
+         Ok(StrV(IF SStartsWith(recv.v, args[1].v) THEN SSub(recv.v, Len(args[1].v), Len(recv.v)) ELSE recv.v), s)
+    [] m = "strip_suffix" /\ n = 1 /\ IsStr(recv) /\ IsStr(args[1]) ->
+         Ok(StrV(IF SEndsWith(recv.v, args[1].v) THEN SSub(recv.v, 0, Len(recv.v) - Len(args[1].v)) ELSE recv.v), s)
+    [] m = "split" /\ n = 1 /\ IsStr(recv) /\ IsStr(args[1]) ->
+         Ok(ListV(IF Len(recv.v) = 0 THEN <<>> ELSE SPieces(recv.v, args[1].v)), s)     \* "".split(",") = []
+    [] m = "chars" /\ n = 0 /\ IsStr(recv) -> Ok(ListV(SPieces(recv.v, "")), s)
+    [] m = "join" /\ n = 1 /\ IsStr(recv) /\ IsList(args[1]) /\ (\A i \in 1..Len(args[1].v) : IsStr(args[1].v[i])) ->
+         Ok(StrV(SJoin(args[1].v, recv.v, 1)), s)
     \* options
     [] m = "is_some" /\ n = 0 /\ IsOpt(recv) -> Ok(BoolV(recv.has), s)
     [] m = "is_none" /\ n = 0 /\ IsOpt(recv) -> Ok(BoolV(~recv.has), s)
